@@ -59,7 +59,7 @@ with open(f"{V}/seeded/README.md", "w") as f:
             "| id | property | first pass | caught by its check now (quick tier) | violation reported | note |\n|---|---|---|---|---|---|\n")
     for m in allmeta:
         fp = m.get("first_pass_caught")
-        f.write(f"| {m['id']} | {m['breaks_property']} | {'' if fp is None else ('yes' if fp else 'no')} | {'yes' if m['caught'] else 'NO'} | "
+        f.write(f"| {m['id']} | {m['breaks_property']} | {'' if fp is None else ('yes' if fp else 'no')} | {('yes' if m['check_result'].get('check') == m['breaks_property'] else 'yes, by ' + str(m['check_result'].get('check'))) if m['caught'] else 'NO'} | "
                 f"{m['check_result'].get('violation_kind') or ''} | {m.get('note','')} |\n")
     n = sum(1 for m in allmeta if m["caught"])
     f.write(f"\n{n} of {len(allmeta)} caught.\n")
